@@ -1,3 +1,4 @@
+import Woodpile.Driver.Unwind
 import Woodpile.Driver.Util
 import Woodpile.Model.VouchedTime
 import Woodpile.Model.VouchedTimeApi
@@ -90,6 +91,7 @@ def step (_ : Unit) : List String → Unit × List String
     | _, _, _ => ((), ["bad-op"])
   | _ => ((), ["bad-op"])
 
-def family : Family := { σ := Unit, init := (), step := step }
+/-- every op may be wrapped in `unwinding` (`Driver/Unwind.lean`): the harness ops catch their specified panics themselves -/
+def family : Family := withUnwind { σ := Unit, init := (), step := step } (fun _ _ => true)
 
 end Woodpile.Driver.VTimeFam
